@@ -27,6 +27,10 @@ TIERS = {"quick": dict(cap=4000, samples=12, maxdepth=4, shards=16, wall=3,
                           wall_go=["go movetime 0", "go movetime 1", "go movetime 5", "go movetime 9", "go movetime 20", "go movetime 400", "go movetime 1500",
                                    "go wtime 5100 btime 5100 winc 0 binc 0", "go wtime 3000 btime 3000 winc 0 binc 0", "go wtime 1 btime 1", "go wtime 15000 btime 15000 winc 0 binc 0",
                                    "go btime 9000 wtime 9000 binc 300 winc 300", "go depth 40 movetime 250"])}
+# positions in which an engine is tempted to treat the clock specially: a single legal move, a mate in one, bare material,
+# the start position (validated by the specification like every other input: PromptTrace gates on Valid)
+WALL_EXTRA = ["rr6/6k1/8/8/7R/8/8/K7 w - -", "6k1/5ppp/8/8/8/8/8/R3K3 w Q -", "8/8/8/4k3/8/8/4P3/4K3 w - -",
+              "rnbqkbnr/pppppppp/8/8/8/8/PPPPPPPP/RNBQKBNR w KQkq -"]
 WALL_REPS = 5
 WALL_TOL_MS = 500
 
@@ -96,7 +100,7 @@ def run(prop, tier, seed):
         eng = vlib.build_engine()
         wall = []
         cases = []
-        for fen in _fens()[:T["wall"]]:
+        for fen in WALL_EXTRA + _fens()[:T["wall"]]:
             for go in T["wall_go"]:
                 cases.append((fen, go))
         bsrc = os.path.join(work, "wall_cases.ndjson")
@@ -126,12 +130,27 @@ def run(prop, tier, seed):
                 overs.append(round(dt - ms, 1))
                 if st != "fence" or dt - ms <= WALL_TOL_MS:
                     break
-            wall.append({"fen": fen, "go": go, "budget_ms": ms, "overrun_ms_per_repetition": overs, "status": st})
-            if st != "fence" or min(overs) > WALL_TOL_MS:
-                R.violation("C07:wallclock:%s:%s" % (fen, go),
-                            "C07 [wall clock] '%s' on '%s' (budget %d ms handed to the search): answered %s ms after the budget in %d "
-                            "repetitions (status %s) - the smallest overrun exceeds %d ms" % (go, fen, ms, overs, len(overs), st, WALL_TOL_MS),
-                            {"kind": "wall", "fen": fen, "go": go})
+            wall.append({"ev": "wall", "fen": fen, "pos": vlib.fen_to_struct(fen), "go": go, "budget_ms": ms,
+                         "overrun_ms": [int(round(x)) for x in overs], "answered": st == "fence"})
+        # the verdict is TLC's (PromptTrace.tla, action TWall): answered, and the smallest overrun within the tolerance
+        wtp = os.path.join(work, "wall.ndjson")
+        with open(wtp, "w") as f:
+            for x in wall:
+                f.write(json.dumps(x) + "\n")
+        if wall:
+            matched, results, rej = vlib.validate_trace("PromptTrace", "PromptTrace.cfg", wtp, lambda e: True, timeout=1800, max_rejections=6)
+            for r in results:
+                R.add_tlc(r)
+            for rj in rej:
+                e = rj["event"]
+                names = rj["failed"] or [("C07", "no_action")]
+                R.violation("C07:wallclock:%s:%s" % (e.get("fen"), e.get("go")),
+                            "C07 [wall clock, sub-checks %s] '%s' on '%s' (budget %s ms handed to the search): answered=%s, %s ms after the budget in %d "
+                            "repetitions - the smallest overrun exceeds %d ms" % ([n[1] for n in names], e.get("go"), e.get("fen"), e.get("budget_ms"),
+                                                                                  e.get("answered"), e.get("overrun_ms"), len(e.get("overrun_ms", [])), WALL_TOL_MS),
+                            {"kind": "wall", "fen": e.get("fen"), "go": e.get("go")})
+        for x in wall:
+            x.pop("pos", None)
         R.coverage["wall_clock_recorded"] = wall[:12]
         log("[C07] %d budget runs matched, largest poll gap %d, most nodes after a deadline %d, %d wall-clock runs, %d violations" % (
             events, agg["max_gap"], agg["max_after"], len(wall), len(R.violations)))
